@@ -87,9 +87,21 @@ def gen_case(rng):
         case["nu"] = rng.choice([q(F(5, 2)), q(F(5)), "13/10"])
         span = rng.choice([2, 3, 6])
 
+    seen = []
+
     def row():
         tok[0] += 1
+        nu = F(case["nu"])
+        if seen and nu > 0 and rng.random() < 0.12:
+            # a probe a few parts per million inside / outside the threshold sphere of an earlier point (axis
+            # aligned, so the distance is exact): admission is decided by `novelty >= threshold`, not "close to"
+            base = rng.choice(seen)
+            ax = rng.randrange(nd)
+            r = nu * (1 + rng.choice([-1, -1, 1]) * F(1, 2**rng.choice([18, 20, 22])))
+            m = [q(F(x) + (r if i == ax else 0)) for i, x in enumerate(base)]
+            return [tok[0], q(F(rng.randint(-6, 6), rng.choice([1, 2]))), m]
         m = [q(F(rng.randint(-span, span))) for _ in range(nd)]
+        seen.append(m)
         if climb:
             return [tok[0], q(F(tok[0] + rng.randint(-3, 3), rng.choice([1, 2]))), m]
         if rng.random() < 0.15:
